@@ -446,6 +446,29 @@ func (o *Oracle) report(idx int, op Op, res string, pre, post *Dump) {
 			}
 		}
 	}
+	// C04 "mirrors the newest report", leader part: a replica that is a member of the view after this report and reports
+	// for a version at least the view's is marked leader exactly when it says so (one entry per shard in the report)
+	{
+		per := map[uint64]int{}
+		for i := range op.Infos {
+			per[op.Infos[i].S]++
+		}
+		for i := range op.Infos {
+			in := &op.Infos[i]
+			qv := post.ShardImage.Shards[in.S]
+			if per[in.S] != 1 || qv == nil || qv.ConfigChangeIndex > in.Cci {
+				continue
+			}
+			qr := qv.Replicas[in.R]
+			if qr == nil {
+				continue
+			}
+			o.Run.Count("c04:leader_flag_checked")
+			if qr.IsLeader != in.Leader {
+				o.fail("C04", "view_mirrors_max", "leader-not-as-reported", fmt.Sprintf("shard %d: member %d reported leader=%v for version %d, the view (version %d) marks it leader=%v", in.S, in.R, in.Leader, in.Cci, qv.ConfigChangeIndex, qr.IsLeader), idx)
+			}
+		}
+	}
 	// C05: a listed replica that is in the view has now been reported at time T
 	for i := range op.Infos {
 		in := &op.Infos[i]
